@@ -553,9 +553,34 @@ func c13History(o *Out, r *rand.Rand) {
 		return c
 	}
 	cur := mkSet(1 + r.Intn(8))
-	keys := make([]int, 200)
+	// call arguments of many shapes: the routing key is "/path/method/args" rendered with %v
+	type point struct {
+		X, Y int
+		Tag  string
+	}
+	keys := make([]interface{}, 200)
 	for i := range keys {
-		keys[i] = r.Intn(1 << 30)
+		n := r.Intn(1 << 30)
+		switch r.Intn(9) {
+		case 0:
+			keys[i] = fmt.Sprintf("user-%d", n)
+		case 1:
+			keys[i] = map[string]string{"tenant": fmt.Sprint(n % 97), "region": "eu", "shard": fmt.Sprint(n % 7)}
+		case 2:
+			keys[i] = &point{n % 1000, n % 77, "p"}
+		case 3:
+			keys[i] = point{n % 1000, n % 77, "v"}
+		case 4:
+			keys[i] = []byte(fmt.Sprint(n))
+		case 5:
+			keys[i] = map[string]int{"a": n % 5, "b": n % 11, "c": 3}
+		case 6:
+			keys[i] = nil
+		case 7:
+			keys[i] = []string{fmt.Sprint(n % 13), "x"}
+		default:
+			keys[i] = n
+		}
 	}
 	selA := client.VerifNewSelector(client.ConsistentHash, copyMap(cur))
 	ops := []string{updateOp(selA, cur, false)}
@@ -595,7 +620,7 @@ func c13History(o *Out, r *rand.Rand) {
 		mb := mapping(selB, false)
 		for i := range m1 {
 			if m1[i] != mb[i] {
-				o.Violate("c13.instances-disagree", fmt.Sprintf("two selectors built from the same %d-server set map key %d to %s and %s", len(cur), keys[i], m1[i], mb[i]), rp("two instances"))
+				o.Violate("c13.instances-disagree", fmt.Sprintf("two selectors built from the same %d-server set map key %v to %s and %s", len(cur), keys[i], m1[i], mb[i]), rp("two instances"))
 				return
 			}
 		}
@@ -657,12 +682,12 @@ func c13History(o *Out, r *rand.Rand) {
 			switch kind {
 			case "noop":
 				if m3[i] != prev[i] {
-					o.Violate("c13.unstable.reannounce", fmt.Sprintf("re-announcing the identical set (update %d of the history) moved key %d from %s to %s", step+2, keys[i], prev[i], m3[i]), rp("re-announce after history"))
+					o.Violate("c13.unstable.reannounce", fmt.Sprintf("re-announcing the identical set (update %d of the history) moved key %v from %s to %s", step+2, keys[i], prev[i], m3[i]), rp("re-announce after history"))
 					return
 				}
 			case "add":
 				if m3[i] != prev[i] && !added[m3[i]] {
-					o.Violate("c13.not-monotone", fmt.Sprintf("after adding servers only (update %d of the history), key %d moved from %s to the old server %s", step+2, keys[i], prev[i], m3[i]), rp("add-only"))
+					o.Violate("c13.not-monotone", fmt.Sprintf("after adding servers only (update %d of the history), key %v moved from %s to the old server %s", step+2, keys[i], prev[i], m3[i]), rp("add-only"))
 					return
 				}
 			}
